@@ -496,10 +496,11 @@ VM_SPECS = r"""
     fn run_size(&mut self, a: u8, b: u8, t: bool) -> (r: Result<()>)
         requires old(self).wf(), ensures Self::op_post(old(self), final(self), r is Ok)
     { unimplemented!() }
-    // vm.rs new_frame_base: `u8::try_from(registers.len() - register_base)`, an error when the window is full
+    // vm.rs new_frame_base: `self.next_register(1)` (PROVED below: next_register): an error unless the frame base AND the
+    // register after it (the first argument) can be addressed by a u8 (finding F38: it used to accept a window of 255)
     #[verifier::external_body]
     fn new_frame_base(&self) -> (r: Result<u8>)
-        ensures (r is Ok) == self.window_fits_u8(), r matches Ok(b) ==> b as int == self.registers@.len() - self.register_base
+        ensures (r is Ok) == (self.registers@.len() - self.register_base + 1 <= 255), r matches Ok(b) ==> b as int == self.registers@.len() - self.register_base
     { unimplemented!() }
     // assumed (pushes instance and argument, then call_callable): a Koto function gets ONE frame above
     // everything on the value stack, a native function or a generator runs at once and pushes none
@@ -1126,9 +1127,9 @@ UNIT = Unit(
     requires
         old(self).wf(),
         old(self).registers@.len() < 0x2000_0000_0000_0000,                       // memory bound (assumption)
-        // register 255 is never handed out by the compiler (V-frame::push_register::limit_is_error);
-        // `frame_base + 1` would overflow for a native re-entry with exactly 255 registers in the
-        // window (new_frame_base accepts 255): latent, noted in DESIGN 11.4
+        // register 255 is never handed out by the compiler (V-frame::push_register::limit_is_error), and the
+        // runtime's own call sites get their frame base from new_frame_base / next_register(1), which leave room
+        // for `frame_base + 1` (findings F37, F38)
         call_info.frame_base < 255,
         // the frame base and the call arguments are on the stack (compile_call / call_and_run_function)
         old(self).register_base + call_info.frame_base as int + 1 + call_info.arg_count as int <= old(self).registers@.len(),
